@@ -188,3 +188,49 @@ package lint
 //@   ensures [C03 C04] implies(g.retCfg == nil && g.retApplies &&
 //@                    inWindow(old(l.EffectiveDate), old(l.IneffectiveDate), old(o.NextUpdate)),
 //@              g.nExec == 1 && g.recvExec == g.retCtor && g.tApplies < g.tExec && result == g.retExec)
+
+// ---------------------------------------------------------------------------
+// registry accessors as the result-set builder sees them (C01). The well-formedness
+// of the returned list is the registry's representation invariant (C08/C12).
+
+//@ spec wfCertLints(L []*CertificateLint) bool =
+//@      forall(i, 0, len(L), L[i] != nil && allocated(L[i]) && L[i].Lint != nil) &&
+//@      forall(i, 0, len(L), forall(j, 0, len(L), implies(i != j, L[i].Name != L[j].Name)))
+//@ spec wfCrlLints(L []*RevocationListLint) bool =
+//@      forall(i, 0, len(L), L[i] != nil && allocated(L[i]) && L[i].Lint != nil) &&
+//@      forall(i, 0, len(L), forall(j, 0, len(L), implies(i != j, L[i].Name != L[j].Name)))
+//@ spec wfOcspLints(L []*OcspResponseLint) bool =
+//@      forall(i, 0, len(L), L[i] != nil && allocated(L[i]) && L[i].Lint != nil) &&
+//@      forall(i, 0, len(L), forall(j, 0, len(L), implies(i != j, L[i].Name != L[j].Name)))
+
+//@ trace interface CertificateLinterLookup.Lints as Lints
+//@ trace interface RevocationListLinterLookup.Lints as CrlLints
+//@ trace interface OcspResponseLinterLookup.Lints as OcspLints
+
+//@ interface Registry.Names
+//@   pure
+//@ interface Registry.GetConfiguration
+//@   pure
+//@ interface Registry.CertificateLints
+//@   pure
+//@   ensures result != nil
+//@ interface Registry.RevocationListLints
+//@   pure
+//@   ensures result != nil
+//@ interface Registry.OcspResponseLints
+//@   pure
+//@   ensures result != nil
+//@ interface CertificateLinterLookup.Lints
+//@   pure
+//@   ensures wfCertLints(result)
+//@ interface RevocationListLinterLookup.Lints
+//@   pure
+//@   ensures wfCrlLints(result)
+//@ interface OcspResponseLinterLookup.Lints
+//@   pure
+//@   ensures wfOcspLints(result)
+
+//@ func GlobalRegistry
+//@   pure
+//@   trusted
+//@   ensures result != nil
